@@ -100,6 +100,7 @@ type Thread struct {
 	Panic     any
 	PanicStk  string
 	Steps     int
+	waitNoted int
 }
 
 type heldLock struct {
@@ -174,6 +175,8 @@ type Sched struct {
 	// preemption candidates (thread about to run op).
 	LockEdges map[LockEdge]struct{}
 
+	// Waits: every time a thread had to wait for a send or a lock.
+	Waits []string
 	// Trace of (thread id, op kind) per step, kept only when TraceOn.
 	TraceOn bool
 	Trace   []string
@@ -543,9 +546,39 @@ func (s *Sched) enabledThreads() []*Thread {
 		}
 		if opEnabled(&t.op) {
 			out = append(out, t)
+		} else {
+			s.noteWait(t)
 		}
 	}
+	if lr := s.lastRun; lr != nil && lr.state == tParked && !opEnabled(&lr.op) {
+		s.noteWait(lr)
+	}
 	return out
+}
+
+// noteWait remembers that a thread has to wait for a send or a lock (for the
+// "never parks on X" oracles); once per pending operation.
+//
+//go:norace
+func (s *Sched) noteWait(t *Thread) {
+	if t.waitNoted == t.Steps+1 {
+		return
+	}
+	switch t.op.Kind {
+	case OpSend, OpLock, OpWLock, OpRLock:
+	default:
+		return
+	}
+	t.waitNoted = t.Steps + 1
+	d := t.Label + " " + t.op.Kind.String()
+	if t.op.Kind == OpSend {
+		d += " chan " + t.op.Ch.Type().Elem().String()
+	} else if t.op.LM != nil {
+		d += " " + t.op.LM.Class()
+	}
+	if len(s.Waits) < 256 {
+		s.Waits = append(s.Waits, d)
+	}
 }
 
 // ForgetLastRun makes the next thread choice free of charge: at the start of
